@@ -781,18 +781,15 @@ func (wf *WALFileType) SyncWAL(walRefresh, primaryRefresh time.Duration, walRota
 
 // RequestFlush requests WAL Flush to the WAL writer goroutine
 // if it exists, or just does the work in the same goroutine otherwise.
-// The function blocks if there are no current queued flushes, and
-// returns if there is already one queued which will handle the data
-// present in the write channel, as it will flush as soon as possible.
+// The function blocks until a flush that started after the request was queued
+// has completed, so that the data present in the write channel is durable and
+// visible when it returns. A request queued behind another one is cheap: the
+// earlier flush drains the write channel and the later one finds it empty.
 func (wf *WALFileType) RequestFlush() {
 	if !haveWALWriter {
 		if err := wf.FlushToWAL(); err != nil {
 			log.Error("failed to flush WAL", zap.Error(err))
 		}
-		return
-	}
-	// if there's already a queued flush, no need to queue another
-	if len(wf.txnPipe.flushChannel) > 0 {
 		return
 	}
 	f := make(chan struct{})
